@@ -390,12 +390,15 @@ def relational(ctx, P, J, per_prog_runs, base="default", clause="variant-disagre
             if diff:
                 # the signature carries the raise site of the more specific failure (an internal exception wins)
                 cands = [x for x in (r, b) if x.get("error")]
-                cands.sort(key=lambda x: 0 if not x.get("problog_error") else 1)
+                cands.sort(key=lambda x: 0 if not x.get("problog_error") else (1 if "NegativeCycle" in x.get("mro", []) else 2))
                 er = cands[0] if cands else r
                 sig = {"clause": clause, "variant": vn.split("#")[0]}
                 if er.get("error"):
                     sig.update({"error": er["error"], "site": er.get("site", ""), "chain": er.get("chain", "")})
                 sig.update(semcheck.triggers(P[i]))
+                jj = J[i]
+                sig["class"] = "invalid" if not jj["valid"] else ("mustReject" if jj["mustReject"] else
+                                                                  "mustAnswer" if jj["mustAnswer"] else "either")
                 if sig_extra:
                     sig.update(sig_extra(P[i], J[i], r, vn))
                 ctx.violation(sig, "%s\n%s" % (diff, kw.get("text", "")),
